@@ -86,8 +86,7 @@ ITEMS += [
     Item(id='is_nan', source=S, locator='impl NNum / fn is_nan',
          ensures=[('value', 'r == (match self@ { NumV::Flt(f) => fv(f) is NaN, NumV::Cpx(z) => fv(z.re) is NaN || fv(z.im) is NaN, _ => false })')], props=P7 + ['C08', 'C09']),
     Item(id='is_nonzero', source=S, locator='impl NNum / fn is_nonzero',
-         ensures=[('exact_levels', 'level(self@) <= 1 ==> r == (to_rat(self@) != 0real)'),
-                  ('float', 'self@ is Flt ==> r == !fv_eq(fv(self@->Flt_0), FV::Fin(0real))')], props=P67),
+         ensures=[('value', 'r == num_nonzero(self@)')], props=P67),
     Item(id='numerator', source=S, locator='impl NNum / fn numerator',
          ensures=[('value', 'r == (match self@ { NumV::Int(i) => Some(x) if x@ == ..., _ => None })')], props=P7),
 ]
@@ -121,6 +120,12 @@ for m, f in ROUND.items():
                                 'match round_family(self@, %s) { Some(v) => r is Some && r->Some_0@ == v, None => r is None }' % f)],
                       props=P7))
 
+DIV_ENS = [
+    ('exact_fraction', '(level(self@) <= 1 && level(other@) <= 1 && to_rat(other@) != 0real) ==> r@ == NumV::Rat(to_rat(self@) / to_rat(other@))'),
+    ('zero_divisor_falls_back_to_float', '(level(self@) <= 1 && level(other@) <= 1 && to_rat(other@) == 0real) ==> r@ == NumV::Flt(f_div(to_flt(self@), to_flt(other@)))'),
+    ('float_level', '(level(self@) <= 2 && level(other@) <= 2 && (level(self@) == 2 || level(other@) == 2)) ==> r@ == NumV::Flt(f_div(to_flt(self@), to_flt(other@)))'),
+    ('complex_level', '(self@ is Cpx || other@ is Cpx) ==> r@ == NumV::Cpx(c_div(to_cpx(self@), to_cpx(other@)))'),
+]
 VARIANTS = [('rr', '&NNum', '&NNum'), ('rv', '&NNum', 'NNum'), ('vr', 'NNum', '&NNum'), ('vv', 'NNum', 'NNum')]
 
 
@@ -156,16 +161,10 @@ ITEMS += [
     Item(id='mod_floor', source=S, frm='expanded', locator=M + 'impl NNum / fn mod_floor',
          requires=[('no_exact_zero_divisor', '!exact_zero_divisor(self@, other@)')],
          ensures=[('tower_level_and_value', 'tower_agrees(BinOp::ModFloor, self@, other@, r@)')], props=P67),
-    Item(id='div_rr', source=S, locator='impl Div<&NNum> for &NNum / fn div',
-         ensures=[('exact_fraction', '(level(self@) <= 1 && level(other@) <= 1 && to_rat(other@) != 0real) ==> r@ == NumV::Rat(to_rat(self@) / to_rat(other@))'),
-                  ('zero_divisor_falls_back_to_float', '(level(self@) <= 1 && level(other@) <= 1 && to_rat(other@) == 0real) ==> r@ == NumV::Flt(f_div(to_flt(self@), to_flt(other@)))'),
-                  ('float_level', '(level(self@) <= 2 && level(other@) <= 2 && (level(self@) == 2 || level(other@) == 2)) ==> r@ == NumV::Flt(f_div(to_flt(self@), to_flt(other@)))'),
-                  ('complex_level', '(self@ is Cpx || other@ is Cpx) ==> r@ == NumV::Cpx(c_div(to_cpx(self@), to_cpx(other@)))')],
-         props=P7),
-    Item(id='div_vv', source=S, frm='expanded', locator=M + 'impl Div<NNum> for NNum / fn div',
-         ensures=[('exact_fraction', '(level(self@) <= 1 && level(other@) <= 1 && to_rat(other@) != 0real) ==> r@ == NumV::Rat(to_rat(self@) / to_rat(other@))'),
-                  ('level', '!(level(self@) <= 1 && level(other@) <= 1) ==> level(r@) == (if level(self@) >= level(other@) { level(self@) } else { level(other@) })')],
-         props=P7),
+    Item(id='div_rr', source=S, locator='impl Div<&NNum> for &NNum / fn div', ensures=DIV_ENS, props=P7),
+    # NB: Verus resolves the operator expression `&a / &b` to the contract of the by-value impl, so both ownership variants
+    # carry the same (full) contract; each body is verified against it separately.
+    Item(id='div_vv', source=S, frm='expanded', locator=M + 'impl Div<NNum> for NNum / fn div', ensures=DIV_ENS, props=P7),
     Item(id='neg_v', source=S, locator='impl Neg for NNum / fn neg',
          subst=[(r'NNum::Float\(-f\)', 'NNum::Float(f64_neg(f))', 'Verus rejects unary minus on floats; prelude fn f64_neg (exact sign flip)')],
          ensures=[('value', 'r@ == (match self@ { NumV::Int(i) => NumV::Int(-i), NumV::Rat(x) => NumV::Rat(-x), NumV::Flt(f) => NumV::Flt(f_neg(f)), NumV::Cpx(z) => NumV::Cpx(c_neg(z)) })')],
@@ -179,9 +178,24 @@ ITEMS += [
     Item(id='not_v', source=S, locator='impl Not for NNum / fn not',
          ensures=[('value', 'r@ == (match self@ { NumV::Int(i) => NumV::Int(int_not(i)), _ => NumV::Flt(F_NAN()) })')], props=P67),
     Item(id='pow_big_ints', source=S, locator='fn pow_big_ints',
-         requires=[('zero_has_no_negative_power', '!(a@ == 0 && b@ < 0)')],
          ensures=[('nonnegative_exponent_exact_int', 'b@ >= 0 ==> r@ == NumV::Int(int_pow(a@, b@ as nat))'),
-                  ('negative_exponent_exact_reciprocal', 'b@ < 0 ==> r@ == NumV::Rat(1real / (int_pow(a@, (-b@) as nat) as real))')],
+                  ('negative_exponent_exact_reciprocal', '(b@ < 0 && a@ != 0) ==> r@ == NumV::Rat(1real / (int_pow(a@, (-b@) as nat) as real))'),
+                  ('zero_to_negative_power_is_float_like_one_over_zero', '(b@ < 0 && a@ == 0) ==> r@ is Flt')],
+         props=P67),
+    # float / complex powers: only the level of the result is claimed (float arithmetic is uninterpreted)
+    Item(id='PowIF', kind='type', source=S, locator='trait PowIF'),
+    Item(id='PowIF_f64', kind='type', source=S, locator='impl PowIF for f64'),
+    Item(id='PowIF_c64', kind='type', source=S, locator='impl PowIF for Complex64'),
+    Item(id='powf_pdnum', source=S, locator='fn powf_pdnum',
+         ensures=[('float_or_complex', 'level(r@) >= 2')], props=P7),
+    Item(id='powif_pdnum', source=S, locator='fn powif_pdnum',
+         ensures=[('float_or_complex', 'level(r@) >= 2')], props=P7),
+    Item(id='pow_num', source=S, locator='impl NNum / fn pow_num', subst=SUB_CONSTS,
+         ensures=[('int_to_nonnegative_int_exact', '(self@ is Int && other@ is Int && other@->Int_0 >= 0) ==> r@ == NumV::Int(int_pow(self@->Int_0, other@->Int_0 as nat))'),
+                  ('int_to_negative_int_exact_reciprocal', '(self@ is Int && other@ is Int && other@->Int_0 < 0 && self@->Int_0 != 0) ==> r@ == NumV::Rat(1real / (int_pow(self@->Int_0, (-other@->Int_0) as nat) as real))'),
+                  ('rational_to_int_exact', '(self@ is Rat && other@ is Int && !(self@->Rat_0 == 0real && other@->Int_0 < 0)) ==> r@ == NumV::Rat(rat_pow(self@->Rat_0, other@->Int_0))'),
+                  ('zero_to_negative_power_is_float', '(other@ is Int && other@->Int_0 < 0 && level(self@) <= 1 && to_rat(self@) == 0real) ==> r@ is Flt'),
+                  ('otherwise_float_or_complex', '(level(self@) >= 2 || level(other@) >= 1) ==> level(r@) >= 2')],
          props=P67),
     Item(id='shl', source=S, locator='impl Shl<NNum> for NNum / fn shl', subst=SUB_CONSTS,
          ensures=[('exact_multiplication_by_power_of_two',
